@@ -380,3 +380,16 @@ Section Sound.
       apply calls_of_spec in Hlog. apply strs_eqb_iff. rewrite Hlog. now apply ref_calls_good.
   Qed.
 End Sound.
+
+(* ---- the monitor is the comparison with the model, as a decider --------------- *)
+Lemma ok_eq_agree c : ok c = agree c.
+Proof.
+  destruct c as [sep pk custom t items ores olog trip]. unfold ok, agree.
+  now rewrite ref_result_eq, ref_calls_eq.
+Qed.
+
+(* the model's own trace satisfies the readable statement *)
+Lemma model_observed_ok sep pk custom t items :
+  observed_ok t sep pk custom items (parse_to_dict (lookup t) sep pk items)
+              (calls (lookup t) sep pk items) 0.
+Proof. apply ok_sound. apply monitor_accepts_model_lemma. Qed.
